@@ -84,7 +84,7 @@ static request_case make_case(int no)
 	c.wire+="Host: www.example.com\r\n"; c.env["HTTP_HOST"]="www.example.com";
 	int nh=rnd()%4;
 	for(int i=0;i<nh;i++) {
-		std::ostringstream nm; char const *names[]={"X-Custom-Header","accept-language","x_under","User-Agent","X-a1-b2"}; nm << names[rnd()%5] << (no*4+i);
+		std::ostringstream nm; char const *names[]={"X-Custom-Header","accept-language","x_under","User-Agent","X-a1-b2","Authorization","x-lazy-Zz"}; nm << names[rnd()%7] << (no*4+i);
 		std::string name=nm.str(),wire_val,val;
 		switch(rnd()%6) {
 		case 0: wire_val="plain value"; val=wire_val; break;
